@@ -41,7 +41,7 @@ def r04a(ctx, rep, cr):
                      'return is reachable except through a loop or closure that evaluates the condition; (3) the columnar path takes its '
                      'row set from the vectorised filter fed by the same condition and falls back when that filter declines')
     fns = [f for f in cr.fns.values() if f.name.startswith(RE) and '{closure' not in f.name and _cond_params(f)]
-    rep.floor('R04a', 'RelationalEngine methods taking a Condition', len(fns), 20)
+    rep.floor('R04a', 'RelationalEngine methods taking a Condition', len(fns), 8)
     nconv = nfetch = 0
     for f in sorted(fns, key=lambda x: x.name):
         rep.analysed(f)
@@ -303,7 +303,7 @@ def r04b(ctx, rep, cr):
                     rep.violation('R04b', g, 'alive-mask-' + v, g.loc(c.line), 'the vectorised arm for Condition::%s can return a selection without applying the alive mask: deleted rows are selected' % v)
                 else:
                     rep.holds('R04b', g, 'vectorised %s' % c.resolved.split('::')[-1], 'named after its variant, alive mask applied')
-        rep.floor('R04b', 'vectorised filter calls', n, 8)
+        rep.floor('R04b', 'vectorised filter calls', n, 4)
 
 
 def r04c(ctx, rep, cr):
